@@ -625,6 +625,9 @@ def fold(acc, function, exprs):
 
 def concat(items, how="vertical", **kw):
     items = list(items)
+    if not items:
+        # polars: ValueError("cannot concat empty list")
+        cur().ghost["interp"].raise_py(ValueError, "cannot concat empty list")
     if how == "horizontal":
         base = items[0]
         cols = {}
